@@ -112,6 +112,28 @@ func blockedGids() map[uint64]string {
 	return out
 }
 
+// allRunningBlocked reports whether every task in state running is waiting on a sync primitive right now.
+func (s *Scheduler) allRunningBlocked() bool {
+	bl := blockedGids()
+	for _, t := range s.tasks {
+		if atomic.LoadInt32(&t.state) == tRunning {
+			if _, ok := bl[t.gid]; !ok {
+				return false
+			}
+		}
+	}
+	return true
+}
+
+func (s *Scheduler) anyParked() bool {
+	for _, t := range s.tasks {
+		if atomic.LoadInt32(&t.state) == tParked {
+			return true
+		}
+	}
+	return false
+}
+
 // Run executes the functions as concurrent tasks under the decision list and returns when all finished (or a
 // deadlock was detected: every unfinished task blocked on a lock, none parked).
 func (s *Scheduler) Run(names []string, fns []func()) {
@@ -144,6 +166,7 @@ func (s *Scheduler) Run(names []string, fns []func()) {
 		var parked []*task
 		stable := false
 		spins := 0
+		confirm := 0
 		for !stable {
 			parked = parked[:0]
 			running := 0
@@ -165,35 +188,23 @@ func (s *Scheduler) Run(names []string, fns []func()) {
 				continue
 			}
 			if spins%20 == 0 {
-				bl := blockedGids()
-				allBlocked := true
-				for _, t := range s.tasks {
-					if atomic.LoadInt32(&t.state) == tRunning {
-						if _, ok := bl[t.gid]; !ok {
-							allBlocked = false
-						}
-					}
+				// a task counts as blocked only if three consecutive snapshots (>= 400us apart) show it waiting on a sync
+				// primitive: a goroutine waiting for a briefly held mutex (klog, object tracker) must not look like one
+				// that waits for a lock another task holds across a yield point
+				if s.allRunningBlocked() {
+					confirm++
+				} else {
+					confirm = 0
 				}
-				if allBlocked {
-					// re-read the states: a task may have parked/finished in between
-					again := true
+				if confirm >= 3 {
+					parked = parked[:0]
 					for _, t := range s.tasks {
-						if atomic.LoadInt32(&t.state) == tRunning {
-							if _, ok := bl[t.gid]; !ok {
-								again = false
-							}
+						if atomic.LoadInt32(&t.state) == tParked {
+							parked = append(parked, t)
 						}
 					}
-					if again {
-						parked = parked[:0]
-						for _, t := range s.tasks {
-							if atomic.LoadInt32(&t.state) == tParked {
-								parked = append(parked, t)
-							}
-						}
-						stable = true
-						break
-					}
+					stable = true
+					break
 				}
 			}
 			time.Sleep(20 * time.Microsecond)
@@ -211,6 +222,18 @@ func (s *Scheduler) Run(names []string, fns []func()) {
 			break
 		}
 		if len(parked) == 0 {
+			// nothing can be released: before calling it a deadlock, require the configuration to persist for 300 ms
+			persisted := true
+			for k := 0; k < 300; k++ {
+				time.Sleep(time.Millisecond)
+				if !s.allRunningBlocked() || s.anyParked() {
+					persisted = false
+					break
+				}
+			}
+			if !persisted {
+				continue
+			}
 			s.Deadlock = true
 			var sb strings.Builder
 			for _, t := range s.tasks {
